@@ -81,7 +81,7 @@ func (ca *ConnlistAnalyzer) ConnlistFromDirPath(dirPath string) ([]Peer2PeerConn
 	// instead of parsing the builder's string error to decide on error type (warning/error/fatal-err)
 	// return as fatal error if rList is empty or if stopOnError is on
 	// otherwise try to analyze and return as accumulated error
-	if errs != nil {
+	if len(errs) > 0 {
 		// TODO: consider avoid logging this error because it is already printed to log by the builder
 		if len(rList) == 0 || ca.stopOnError {
 			err := utilerrors.NewAggregate(errs)
